@@ -111,4 +111,95 @@ def attemptsFor (fg fp fk next : Nat) : List Attempt :=
     ++ (List.range fk).map (fun i => .kaErr (next + fp + i))
     ++ [.ok (next + fp + fk)]
 
+
+/-! ### the whole life of a publisher: KeepAlive / Pause / Resume / Stop / keep-alive loss / lease expiry, every etcd
+call may fail (core/discov/publisher.go: KeepAlive, keepAliveAsync's goroutine, doKeepAlive, revoke) -/
+
+/-- the outcome kind of one attempt; the lease is what etcd's Grant hands out next -/
+inductive AKind where
+  | grantErr | putErr | kaErr | ok
+  deriving Repr, DecidableEq
+
+def AKind.toAttempt (l : Nat) : AKind → Attempt
+  | .grantErr => .grantErr
+  | .putErr => .putErr l
+  | .kaErr => .kaErr l
+  | .ok => .ok l
+
+/-- etcd grants every lease once: attempt `i` of the list gets lease `next + i` (a failed Grant consumes none, the gap is harmless) -/
+def attemptsOf : Nat → List AKind → List Attempt
+  | _, [] => []
+  | next, k :: ks => k.toAttempt next :: attemptsOf (next + 1) ks
+
+structure PLife where
+  pub     : Pub
+  store   : Store := []
+  /-- a keep-alive goroutine of the publisher runs (registered, not paused, not stopped) -/
+  running : Bool := false
+  next    : Nat
+  deriving Repr
+
+inductive POp where
+  | keepAlive (a : AKind)                       -- KeepAlive(): one attempt, the error is returned
+  | pause (revokeOk : Bool)                     -- Pause(): revoke (a failure is only logged)
+  | resume (as : List AKind)                    -- Resume(): doKeepAlive
+  | stop (revokeOk : Bool)                      -- Stop(): revoke when running
+  | kaLoss (revokeOk : Bool) (as : List AKind)  -- the keep-alive channel closes: revoke, doKeepAlive
+  | expire                                      -- etcd expires every lease nobody renews
+  deriving Repr
+
+def PLife.revoke (st : PLife) (ok : Bool) : Store := if ok then storeRevoke st.store st.pub.lease else st.store
+
+def PLife.reregister (st : PLife) (s : Store) (as : List AKind) : PLife :=
+  let r := doKeepAlive true st.pub s (attemptsOf st.next as)
+  { pub := r.1, store := r.2.1, running := r.2.2, next := st.next + as.length }
+
+/-- one operation of the publisher's life.  Operations the code cannot take in the state are no-ops (Pause / the
+keep-alive loss need the goroutine; Resume needs a paused publisher; KeepAlive is called once, before anything runs). -/
+def PLife.step (st : PLife) : POp → PLife
+  | .keepAlive a => if st.running then st else st.reregister st.store [a]
+  | .pause ok => if st.running then { st with store := st.revoke ok, running := false } else st
+  | .resume as => if st.running then st else st.reregister st.store as
+  | .stop ok => if st.running then { st with store := st.revoke ok, running := false } else st
+  | .kaLoss ok as => if st.running then ({ st with running := false }).reregister (st.revoke ok) as else st
+  | .expire => { st with store := storeExpire st.store (if st.running then [st.pub.lease] else []) }
+
+def PLife.run (st : PLife) (ops : List POp) : PLife := ops.foldl PLife.step st
+
+
+/-! ### the listeners of one watcher (watchValue.listeners): Unmonitor removes one of them -/
+
+/-- subscriber id ↦ its container -/
+abbrev Listeners := List (Nat × Container)
+
+/-- handleWatchEvents / handleChanges call every listener with every listener-level event -/
+def Listeners.deliver (fx : Fix) (ls : Listeners) (evs : List LEv) : Listeners :=
+  ls.map fun p => (p.1, evs.foldl (applyL fx) p.2)
+
+/-- `Registry.Unmonitor`: listener `i` is taken out of the watcher's list (the others stay, in order) -/
+def Listeners.unmonitor (ls : Listeners) (i : Nat) : Listeners := ls.filter (fun p => p.1 ≠ i)
+
+def Listeners.get (ls : Listeners) (j : Nat) : Option Container := (ls.find? (fun p => p.1 = j)).map (·.2)
+
+/-- `load`: Get is retried until it succeeds (`for { …; if err == nil { break }; …cool down… }`), then the snapshot of
+THAT response goes to handleChanges.  `none` = a failed Get. -/
+def loadLoop : List (Option (List (Nat × Nat))) → Option (List (Nat × Nat))
+  | [] => none                      -- still retrying
+  | some kvs :: _ => some kvs
+  | none :: rest => loadLoop rest
+
+/-- the loop in which the `break` leaves something else than the `for` (or is missing): the first error ends it -/
+def loadLoopNoRetry : List (Option (List (Nat × Nat))) → Option (List (Nat × Nat))
+  | [] => none
+  | r :: _ => r
+
+/-! ### watch revisions (setupWatch: `WithRev(rev + 1)` when a revision was loaded) -/
+
+/-- etcd's event log: event `i` (0-based) has revision `i + 1`.  A watch from revision `from` (0: from now on, i.e.
+nothing of the log) replays the events with revision ≥ `from`. -/
+def replayFrom (log : List Ev) (frm : Nat) : List Ev := if frm = 0 then [] else log.drop (frm - 1)
+
+/-- the revision setupWatch asks for after a load that returned revision `rev` (translated guard `rev != 0`) -/
+def watchFrom (rev : Nat) : Nat := if rev ≠ 0 then rev + 1 else 0
+
 end GoZero.C13
